@@ -233,6 +233,19 @@ fn templates(vars: &[(String, u32)], ell: &str, rich: bool) -> Vec<(&'static str
             parts.push(Cell::new_list(with_ellipses(sym(&v.0), v.1, ell)));
         }
         out.push(("shared-ellipsis-then-each", Cell::new_list(parts)));
+        // the same with every variable but the first inside a vector within the repeated sub-template
+        let inner_v = Cell::new_list(
+            vars.iter()
+                .enumerate()
+                .map(|(i, v)| if i == 0 { sym(&v.0) } else { Cell::Vector(vec![sym(&v.0)]) })
+                .collect::<Vec<_>>(),
+        );
+        let mut parts = vec![sym("sv")];
+        parts.push(Cell::new_list(with_ellipses(inner_v, d0, ell)));
+        for v in vars.iter().rev() {
+            parts.push(Cell::new_list(with_ellipses(sym(&v.0), v.1, ell)));
+        }
+        out.push(("shared-ellipsis-with-vector-then-each", Cell::new_list(parts)));
     }
     // a depth-0 variable repeated inside another variable's ellipsis
     if let (Some(z), Some(e)) = (vars.iter().find(|v| v.1 == 0), vars.iter().find(|v| v.1 == 1)) {
@@ -605,6 +618,116 @@ pub fn worker_case(state: &mut Option<Impl>, batch: &str) -> String {
     serde_json::to_string(&outs).unwrap()
 }
 
+/// Sessions that rebind one macro keyword: every sequence of <= `max_len` forms over two definitions of `pick`, two
+/// procedures whose bodies redefine it when they run, calls of those procedures, and uses of the macro directly and
+/// through eval. The expected outcome follows from the binding in force when a use is compiled.
+fn rebinding_sessions(max_len: u32) -> Acc {
+    const FORMS: [&str; 8] = [
+        "(define-syntax pick (syntax-rules () ((_ a b) a)))",
+        "(define-syntax pick (syntax-rules () ((_ a b) b)))",
+        "(define (restore-1!) (define-syntax pick (syntax-rules () ((_ a b) a))))",
+        "(define (restore-2!) (define-syntax pick (syntax-rules () ((_ a b) b))))",
+        "(restore-1!)",
+        "(restore-2!)",
+        "(pick 1 2)",
+        "(eval '(pick 1 2))",
+    ];
+    let k = FORMS.len() as u64;
+    let mut total = 0u64;
+    let mut offsets = vec![];
+    for len in 1..=max_len {
+        offsets.push((len, total));
+        total += k.pow(len);
+    }
+    par_fold(
+        total,
+        16,
+        || (),
+        |_, acc, i| {
+            let (len, base) = *offsets.iter().rev().find(|(_, b)| i >= *b).unwrap();
+            let mut j = i - base;
+            let mut idxs = vec![];
+            for _ in 0..len {
+                idxs.push((j % k) as usize);
+                j /= k;
+            }
+            // only sessions that end in a use say anything
+            if *idxs.last().unwrap() < 6 {
+                return;
+            }
+            let text = idxs.iter().map(|x| FORMS[*x]).collect::<Vec<_>>().join(" ");
+            beat(&text);
+            acc.evals += 1;
+            // the little model: which rule set the keyword is bound to, and which procedures exist
+            let (mut binding, mut r1, mut r2) = (0u8, false, false);
+            let mut im = Impl::new();
+            for (pos, x) in idxs.iter().enumerate() {
+                let expected: Option<&str> = match x {
+                    0 => {
+                        binding = 1;
+                        None
+                    }
+                    1 => {
+                        binding = 2;
+                        None
+                    }
+                    2 => {
+                        r1 = true;
+                        None
+                    }
+                    3 => {
+                        r2 = true;
+                        None
+                    }
+                    4 => {
+                        if r1 {
+                            binding = 1;
+                            None
+                        } else {
+                            Some("error")
+                        }
+                    }
+                    5 => {
+                        if r2 {
+                            binding = 2;
+                            None
+                        } else {
+                            Some("error")
+                        }
+                    }
+                    _ => Some(match binding {
+                        0 => "error",
+                        1 => "1",
+                        _ => "2",
+                    }),
+                };
+                let got = im.eval_text(FORMS[*x]);
+                let shown = match &got {
+                    ImplOut::Value(c) => format!("{:#}", c),
+                    ImplOut::Error(_, _) => "error".to_string(),
+                    ImplOut::Panic(m) => format!("panic: {}", m),
+                };
+                let ok = match expected {
+                    Some(e) => shown == e,
+                    None => matches!(got, ImplOut::Value(_)),
+                };
+                if !ok {
+                    acc.violation(Violation {
+                        key: format!("rebinding:{}", text),
+                        class: Some("macro-rebinding-session".into()),
+                        observed: if shown.starts_with("panic") { "panic".into() } else { "use-expanded-by-a-superseded-or-missing-definition".into() },
+                        detail: json!({"session": [text], "form_index": pos, "form": FORMS[*x], "expected": expected.unwrap_or("a value"), "observed": shown}),
+                    });
+                    return;
+                }
+            }
+            acc.nontrivial += 1;
+        },
+        Acc::merge,
+        acc_zero,
+    )
+}
+
 pub fn run(ctx: &Ctx) -> i32 {
     let mut rep = Report::new("model_checking");
     let cases = make_cases(ctx.tier);
@@ -726,6 +849,11 @@ pub fn run(ctx: &Ctx) -> i32 {
             acc.sample(json!({"definition": c.def, "use": c.usetext, "expected": format!("{:?}", match &c.expected { Exp::Value(v) => format!("{:#}", v), Exp::NoMatch => "no match".into(), Exp::Invalid(e) => format!("invalid: {}", e) })}));
         }
     }
+    // sessions that rebind a macro keyword (in-process: every outcome is a value or an error)
+    start_watchdog("C17", 60);
+    let reb = rebinding_sessions(ctx.tier.pick(5, 6));
+    rep.extra("macro_rebinding_sessions", json!(reb.evals));
+    acc = Acc::merge(acc, reb);
     rep.states = Some(n as u64);
     rep.transitions = Some(acc.evals);
     rep.traces_validated = Some(acc.nontrivial);
@@ -734,7 +862,7 @@ pub fn run(ctx: &Ctx) -> i32 {
     rep.extra("valid_r7rs_pairs", json!(valid_n));
     rep.extra("single_reruns_after_worker_death", json!(retry.len()));
     rep.rule = format!(
-        "Every pattern shape with at most {} atoms (variable, literal, _, datum), <= 3 elements per list, sub-patterns nested <= {} (quick tier: plus all two-atom shapes nested two deep), an ellipsis on at most one element per list (after a variable or a sub-pattern), an optional dotted tail variable, default and custom ellipsis; for each, every template of: the product of per-variable usages (dropped, v, (v), (v K), (v v), inner-first for depth 2, each with as many ellipses as the variable's depth), reversed order, shared ellipsis, a depth-0 variable inside another variable's ellipsis, dotted tails, vector, nested quote, a variable used in two places, and the R7RS-invalid shapes (too few / too many ellipses, ellipsis after a depth-0 variable); for each, uses with every ellipsis matching 0..{} items and near misses (too short, too long, wrong literal, wrong datum, atom for list, improper); every 7th shape also as the second rule behind a more specific first rule = {} (transformer, use) pairs, run in isolated workers (address-space cap, per-batch watchdog). Oracle: valid R7RS => a reported error or exactly the reference instantiation; no rule matches => an error; invalid R7RS => any outcome; always: no panic, abort or hang. Non-trivial = a valid pair whose outcome was the reference expansion or the required rejection.",
+        "Every pattern shape with at most {} atoms (variable, literal, _, datum), <= 3 elements per list, sub-patterns nested <= {} (quick tier: plus all two-atom shapes nested two deep), an ellipsis on at most one element per list (after a variable or a sub-pattern), an optional dotted tail variable, default and custom ellipsis; for each, every template of: the product of per-variable usages (dropped, v, (v), (v K), (v v), inner-first for depth 2, each with as many ellipses as the variable's depth), reversed order, shared ellipsis, a depth-0 variable inside another variable's ellipsis, dotted tails, vector, nested quote, a variable used in two places, and the R7RS-invalid shapes (too few / too many ellipses, ellipsis after a depth-0 variable); for each, uses with every ellipsis matching 0..{} items and near misses (too short, too long, wrong literal, wrong datum, atom for list, improper); every 7th shape also as the second rule behind a more specific first rule = {} (transformer, use) pairs, run in isolated workers (address-space cap, per-batch watchdog); the catch-all family (the pattern followed by four catch-all rules, small shapes, both ellipsis spellings); every session of <= 5 (thorough 6) forms over two definitions of one keyword, two procedures that redefine it when they run, their calls, and uses of the macro directly and through eval. Oracle: valid R7RS => a reported error or exactly the reference instantiation; no rule matches => an error; invalid R7RS => any outcome; always: no panic, abort or hang. Non-trivial = a valid pair whose outcome was the reference expansion or the required rejection.",
         match ctx.tier { Tier::Quick => 3, Tier::Thorough => 4 },
         match ctx.tier { Tier::Quick => 2, Tier::Thorough => 3 },
         match ctx.tier { Tier::Quick => 2, Tier::Thorough => 3 },
